@@ -73,6 +73,7 @@ func c15Cases(tier string) []sigCase {
 		{"S07", []sigParam{{"", I}, {"", S}}, []*Ty{Bo}},     // F6: unnamed parameters
 		{"S08", []sigParam{{"a", I}, {"b", S}}, nil},         // F10: no results
 		{"S09", []sigParam{{"v0", I}, {"err", S}}, []*Ty{I}}, // names used elsewhere by the generators
+		{"S13", []sigParam{{"param_1", I}, {"_", I}, {"c", S}}, []*Ty{I}}, // a user name that looks like a renamed blank
 	}
 	if tier != "quick" {
 		cs = append(cs,
@@ -524,6 +525,7 @@ func c18CaseInsts(tier string) []CaseInst {
 		{"N05", nil, []*Ty{I}},
 		{"N06", []*Ty{I}, nil},
 		{"N07", []*Ty{I, S, Bo}, []*Ty{I, S, PL}},
+		{"N10", nil, nil},
 	}
 	if tier != "quick" {
 		cases = append(cases, memCase{"N08", []*Ty{Map(S, I)}, []*Ty{I}}, memCase{"N09", []*Ty{leafTy, Named("NInt", I)}, []*Ty{Bo}})
